@@ -362,3 +362,6 @@ mod router;
 pub use router::{Match, Parameters, Router};
 
 mod state;
+
+#[cfg(wayfind_verif)]
+pub mod verif;
